@@ -31,10 +31,11 @@
  *   W:c:<codec>:<page>:<buf>:<arm>:<sticky>              cookie writer
  *   W:p:<codec>:<page>:<path>:<arm>:<sticky>             path writer
  *   B:<col>:<nrows>:<defs|->:<valueshex>   G   C   A     write_batch / new_row_group / close / abort
- *        result  <letter>=<status>:<sinkfailed>:<accepted>  ; C adds :<hex of the sink's bytes>
- *        when it returned OK; A=ok:<exists>:<fd delta>:<accepted>
- *   L                                                    dump the stream-operation log
- *        L=<op><n>:<ok>:<accepted>:<devfail>,...   op w=fwrite f=fflush c=fclose
+ *        result  <letter>=<status>:<sinkfailed>:<accepted>:<ops>  ; C adds :<hex of the sink's
+ *        bytes when it returned OK>:<fd delta>; A=ok:<exists>:<fd delta>:<accepted>:<ops>
+ *        <ops> = stream operations the library issued during the call:
+ *        <op><n>/<ok>/<accepted after>/<devfail>,...   op w=fwrite f=fflush c=fclose
+ *   L                                                    dump the whole stream-operation log
  *   X:<dir>:<lo>:<hi>:<batch>:<filehex>                  open every prefix lo..hi-1 through fread,
  *        mmap and buffer (exact-size heap copy) in forked children (crash isolation);
  *        X=<mode>:<cut>:<verdict>;...   verdict e<code>[!] rejected (code as set, ! = message not
@@ -81,6 +82,8 @@ static struct {
     int fds_before;
     char* vbuf;               /* setvbuf storage of the cookie stream (freed after the stream is closed) */
 } S;
+
+static int g_logged = 0;          /* stream operations already printed in a call token */
 
 static int count_fds(void) {
     DIR* d = opendir("/proc/self/fd"); if (!d) return -1;
@@ -180,7 +183,7 @@ int __wrap_fclose(FILE* f) {
 }
 
 static void sink_reset(void) {
-    free(S.data); free(S.log); free(S.vbuf);
+    free(S.data); free(S.log); free(S.vbuf); g_logged = 0;
     memset(&S, 0, sizeof S);
 }
 
@@ -290,7 +293,13 @@ static carquet_status_t do_write_batch(char* t) {
     return st;
 }
 
-static void put_state(char letter, int st) { printf(" %c=%d:%d:%ld", letter, st, S.failed, sink_accepted()); }
+/* the stream operations logged since the last call token: <op><n>/<ok>/<accepted>/<devfail>,... */
+static void put_ops(void) {
+    if (g_logged >= S.nlog) { fputc('-', stdout); return; }
+    for (int i = g_logged; i < S.nlog; i++) printf("%s%c%ld/%d/%ld/%d", i > g_logged ? "," : "", S.log[i].op, S.log[i].n, S.log[i].ok, S.log[i].acc, S.log[i].devfail);
+    g_logged = S.nlog;
+}
+static void put_state(char letter, int st) { printf(" %c=%d:%d:%ld:", letter, st, S.failed, sink_accepted()); put_ops(); }
 
 static void user_close_stream(void) {
     /* a FILE* writer leaves the stream to its owner: close it with the device unconstrained */
@@ -302,6 +311,7 @@ static void cmd_close(void) {
     carquet_status_t st = carquet_writer_close(g_writer); g_writer = NULL;
     long acc = sink_accepted(); int sf = S.failed;     /* what the sink holds when close() returns */
     printf(" C=%d:%d:%ld:", (int)st, sf, acc);
+    put_ops(); fputc(':', stdout);
     if (st == CARQUET_OK) {
         if (S.kind == 'c') vh_puthex(S.data, (size_t)acc);
         else {
@@ -322,7 +332,7 @@ static void cmd_abort(void) {
     int exists = -1;
     if (S.kind == 'p') { struct stat st; exists = lstat(S.path, &st) == 0; }
     user_close_stream();
-    printf(" A=ok:%d:%d:%ld", exists, count_fds() - S.fds_before, acc);
+    printf(" A=ok:%d:%d:%ld:", exists, count_fds() - S.fds_before, acc); put_ops();
 }
 
 static void cmd_log(void) {
